@@ -141,6 +141,8 @@ type streamRef struct {
 	Code     int32         // when !OK: 0 = any non-OK code, else exactly this one
 	Msg      string        // when Code != 0: the handler's status message
 	Details  []*anypb.Any  // when Code != 0
+	Loose    bool          // when Code != 0: message and details are not prescribed (a wrapped status)
+	Outcome  bool          // the failure is the one an outcome directive asked for
 	Data     []*gt.Message // the data frames the handler sends before it returns
 	Messages int           // well-formed request messages before the end / the fault
 }
@@ -404,8 +406,22 @@ func setStr(m map[int]bool) string {
 	return strings.Join(s, "/")
 }
 
+// checkRequest serves the request and judges the reply. A request with several
+// distinct -bin keys is served orderRepeats times, with the header map filled
+// in every order of its keys in turn (http.Header is a map and Go randomises
+// map iteration: what a server does with such a request may differ from run to
+// run); the first run judged wrong is returned, otherwise the first run.
 func checkRequest(e *env, rq *request) *result {
-	return judge(e.reg, rq, e.do(rq))
+	first := judge(e.reg, rq, e.do(rq))
+	if len(first.Findings) > 0 || !orderDependent(rq.Hdr) {
+		return first
+	}
+	for ord := 1; ord < orderRepeats; ord++ {
+		if r := judge(e.reg, rq, e.doOrd(rq, ord)); len(r.Findings) > 0 {
+			return r
+		}
+	}
+	return first
 }
 
 // judge compares what was observed for one request with the reference; reg maps
@@ -490,12 +506,34 @@ func judge(reg map[string]string, rq *request, o *observation) *result {
 	}
 
 	// dispatched
+	spec := specOfHeaders(rq.Hdr)
 	if kind == "U" {
-		checkUnary(res, o, base, rq.Body)
+		checkUnary(res, o, base, rq.Body, spec)
 	} else {
-		checkStream(res, o, kind, rq.Hdr, rq.Body)
+		checkStream(res, o, kind, rq.Hdr, rq.Body, spec)
 	}
 	return res
+}
+
+// checkUnaryOutcome: the unary handler failed the way an outcome directive asked for.
+func checkUnaryOutcome(res *result, o *observation, codec string, spec *outcomeSpec) {
+	res.Class = "unary-outcome-error:" + codecName(codec)
+	st := readUnaryStatus(o, codec)
+	ok2xx := o.Status >= 200 && o.Status < 300
+	code, exact := spec.expectation()
+	switch {
+	case st.Code == 0 || ok2xx:
+		res.add("handler-failed-reported-ok", fmt.Sprintf("code=%d,http=%d", st.Code, o.Status),
+			fmt.Sprintf("the handler failed (outcome %s) but the caller does not get a non-OK status: %s", spec, o.short()))
+	case code != 0 && st.Code != code, exact && st.HasHeader && st.Msg != spec.Msg:
+		res.add("unary-error-status", fmt.Sprintf("want=%d,code=%d,http=%d", code, st.Code, o.Status),
+			fmt.Sprintf("handler returned code %d %q (outcome %s) but the reply says code=%d msg=%q: %s", code, spec.Msg, spec, st.Code, st.Msg, o.short()))
+	case exact && !anysEqual(st.Details, spec.details()):
+		res.add("unary-error-details", fmt.Sprintf("encoding=%s,got=%d,want=%d", st.DetailsEnc, len(st.Details), spec.Details),
+			fmt.Sprintf("error details of the handler's status are not recoverable from X-GRPC-Details (%s): %s", st.DetailsEnc, o.short()))
+	case exact && st.DetailsEnc == "codec":
+		res.Notes = append(res.Notes, "details-in-request-codec")
+	}
 }
 
 func codecName(base string) string {
@@ -505,7 +543,11 @@ func codecName(base string) string {
 	return "pb"
 }
 
-func checkUnary(res *result, o *observation, codec string, body []byte) {
+func checkUnary(res *result, o *observation, codec string, body []byte, spec *outcomeSpec) {
+	if spec != nil && spec.At == "start" && spec.failed() {
+		checkUnaryOutcome(res, o, codec, spec) // fails before it looks at the request
+		return
+	}
 	dec, m := decodeRef(codec, body)
 	st := readUnaryStatus(o, codec)
 	ok2xx := o.Status >= 200 && o.Status < 300
@@ -538,6 +580,10 @@ func checkUnary(res *result, o *observation, codec string, body []byte) {
 		} else if st.DetailsEnc == "codec" {
 			res.Notes = append(res.Notes, "details-in-request-codec")
 		}
+		return
+	}
+	if spec != nil && spec.At == "end" && spec.failed() {
+		checkUnaryOutcome(res, o, codec, spec)
 		return
 	}
 	res.Class = "unary-ok:" + codecName(codec)
@@ -596,10 +642,21 @@ func trailerUnencodable(h []hv) bool {
 	return false
 }
 
-func checkStream(res *result, o *observation, kind string, hdr []hv, body []byte) {
+func checkStream(res *result, o *observation, kind string, hdr []hv, body []byte, spec *outcomeSpec) {
 	ref := refStream(kind, body)
+	if spec != nil && spec.failed() {
+		code, exact := spec.expectation()
+		switch {
+		case spec.At == "start": // fails before reading or sending anything
+			ref = streamRef{Code: code, Msg: spec.Msg, Details: spec.details(), Loose: !exact, Outcome: true}
+		case ref.OK: // has read and answered everything, then fails instead of returning nil
+			ref.OK, ref.Code, ref.Msg, ref.Details, ref.Loose, ref.Outcome = false, code, spec.Msg, spec.details(), !exact, true
+		}
+	}
 	rep := readStreamReply(o.Body)
 	switch {
+	case ref.Outcome:
+		res.Class = "stream-outcome-error:" + kind
 	case ref.OK:
 		res.Class = "stream-ok:" + kind
 	case ref.Code != 0:
@@ -640,12 +697,17 @@ func checkStream(res *result, o *observation, kind string, hdr []hv, body []byte
 		return
 	}
 	if !ref.OK {
+		if tr.Code == 0 && ref.Outcome {
+			res.add("handler-failed-reported-ok", rep.shape(),
+				fmt.Sprintf("the handler failed (outcome %s) but the trailer says OK (msg=%q): %s", spec, tr.Message, o.short()))
+			return
+		}
 		if tr.Code == 0 {
 			res.add("stream-bad-request-ok", fmt.Sprintf("msgs=%d,%s", ref.Messages, rep.shape()),
 				fmt.Sprintf("the handler failed (request stream malformed/undecodable after %d message(s), wrong number of messages, or an error asked for) but the trailer says OK: %s", ref.Messages, o.short()))
 			return
 		}
-		if ref.Code != 0 && (tr.Code != ref.Code || tr.Message != ref.Msg || !anysEqual(tr.Details, ref.Details)) {
+		if ref.Code != 0 && (tr.Code != ref.Code || (!ref.Loose && (tr.Message != ref.Msg || !anysEqual(tr.Details, ref.Details)))) {
 			res.add("stream-error-status", fmt.Sprintf("want=%d,got=%d", ref.Code, tr.Code),
 				fmt.Sprintf("handler returned code %d %q with %d details but the trailer says code=%d msg=%q details=%d: %s", ref.Code, ref.Msg, len(ref.Details), tr.Code, tr.Message, len(tr.Details), o.short()))
 			return
